@@ -1,4 +1,4 @@
-import Proofs.LiveWireSpec
+import Proofs.LiveWireReach
 import Proofs.LiveWireExample
 /-!
 # C04 — live MIDI byte streams are decoded into exactly the messages sent
@@ -64,6 +64,24 @@ theorem decode_chunking_same_bytes (c : Cfg) (a b : List Tok) (h : bytesOf a = b
   unfold untick
   rw [h]
 
+/-- … byte by byte: what the listener is handed when a byte arrives (after any prefix `pre`) has the same contents
+    as what it is handed at that byte when the whole prefix came in one call — so the byte at which a message is
+    delivered does not depend on the chunking either. -/
+theorem decode_chunking_per_byte (c : Cfg) (pre : List Tok) (b : Nat) :
+    ∃ new new', listen c (pre ++ [Tok.byte b]) = listen c pre ++ new ∧
+      listen c (untick pre ++ [Tok.byte b]) = listen c (untick pre) ++ new' ∧
+      new.map (·.1) = new'.map (·.1) := by
+  refine ⟨listenFrames c (step c (feed c init pre).1 b).2,
+    listenFrames c (step c (feed c init (untick pre)).1 b).2, ?_, ?_, ?_⟩
+  · unfold listen
+    rw [feed_append, listenFrames_append, feed_cons, feed_nil]
+    simp [stepTok]
+  · unfold listen
+    rw [feed_append, listenFrames_append, feed_cons, feed_nil]
+    simp [stepTok]
+  · have h : (feed c init (untick pre)).1 = er (feed c init pre).1 := congrArg Prod.fst (feed_er c pre init)
+    rw [h, step_er, listenFrames_contents c (step c (feed c init pre).1 b).2]
+
 /-- `decode_wire` for token streams given only by their bytes: whatever the chunking of the bytes of a legal
     wire sequence, the listener receives the messages of `expected`, in that order. -/
 theorem decode_wire_any_chunking (c : Cfg) (hc : AllOn c) (items : List Item) (h : WF c.bufSize items)
@@ -94,6 +112,19 @@ theorem message_explicit_any_state (c : Cfg) (hc : AllOn c) (s : St) (run : Nat)
   rw [e]
   exact ⟨listen_item c hc run s.ts it hok, cl⟩
 
+/-- Per-message lemma after ANY token stream `g` (arbitrary bytes, arbitrary chunking) that leaves the decoder in
+    mode clean: the next item — also a message WITHOUT status byte, judged against the running status the
+    decoder holds — is decoded exactly, at the clock `tickSum g`, and the decoder is between messages again. -/
+theorem message_after_any_stream (c : Cfg) (hc : AllOn c) (g : List Tok) (it : Item)
+    (hm : (feed c init g).1.mode = .clean) (hok : it.ok c.bufSize (feed c init g).1.status = true) :
+    listen c (g ++ it.toks) = listen c g ++ delivered (it.msgs (tickSum g)) ∧
+      Clean (feed c init (g ++ it.toks)).1 (it.runAfter (feed c init g).1.status) (tickSum g + it.time) := by
+  have hcl := reachable_clean c g hm
+  obtain ⟨e, cl⟩ := message_from_clean c hc _ _ _ it hcl hok
+  unfold listen
+  rw [feed_append, listenFrames_append, e]
+  exact ⟨rfl, cl⟩
+
 /-- **Time stamp = moment of completion.** In a legal sequence `pre ++ it :: post` the message `m` of a channel /
     system common / real-time item `it` is delivered after everything `pre` delivers and after the real-time
     bytes that sit inside it, exactly once at that place, stamped with the sum of all ticks before its last byte
@@ -118,6 +149,22 @@ theorem timestamp_of_completion (c : Cfg) (hc : AllOn c) (pre post : List Item) 
   rw [e3, e, tickSum_dropLast_byte, ← e, ← item_time]
   rw [stampAt_nonsysex it _ hns]
   simp [delivered]
+
+/-- The same for EVERY token stream, well-formed or not, and every configuration: whatever the listener is handed
+    when a byte `b ≠ F7` arrives (nothing, or the message that `b` completes) comes after everything delivered
+    before and is stamped with the sum of all ticks before `b` (= the accumulated deltas of the `EachMessage` call
+    that contains `b`). (`F7` closes a sysex, which carries the clock of its `F0`: `timestamp_of_sysex`.) -/
+theorem timestamp_any_stream (c : Cfg) (pre : List Tok) (b : Nat) (hb : b ≠ 0xF7) :
+    ∃ new, listen c (pre ++ [Tok.byte b]) = listen c pre ++ new ∧ ∀ m ∈ new, m.2 = tickSum pre := by
+  refine ⟨listenFrames c (step c (feed c init pre).1 b).2, ?_, ?_⟩
+  · unfold listen
+    rw [feed_append, listenFrames_append, feed_cons, feed_nil]
+    simp [stepTok]
+  · have h := step_stamp c (feed c init pre).1 b hb
+    rw [feed_ts] at h
+    have e : init.ts + tickSum pre = tickSum pre := by simp [init]
+    rw [e] at h
+    exact listenFrames_stamp c _ _ h
 
 /-- **A sysex carries the clock of its first byte**: it is delivered when its `F7` arrives (after the real-time
     bytes inside it), stamped with the sum of the ticks before its `F0`. -/
@@ -192,6 +239,10 @@ example : Clean (feed exCfg init (wireToks (exItems.take 1))).1 0x90 3 ∧
 /-- `message_explicit_any_state`: a state in the middle of a sysex (garbage before) and a note on -/
 example : (feed exCfg init [.byte 0xF0, .byte 1]).1.mode = .sysex ∧
     startsExplicit [Item.chan 0x90 false [([], 0x3C), ([.byte 0xF8, .tick 3], 0x40)]] = true := by decide
+/-- `message_after_any_stream`: garbage that ends between messages with running status `0x92`, then `3C 40` -/
+example : (feed exCfg init [.byte 0x7F, .byte 0x92, .tick 3, .byte 0x01, .byte 0x02]).1.mode = .clean ∧
+    (Item.chan 0x92 true [([], 0x3C), ([.byte 0xF8], 0x40)]).ok exCfg.bufSize
+      (feed exCfg init [.byte 0x7F, .byte 0x92, .tick 3, .byte 0x01, .byte 0x02]).1.status = true := by decide
 /-- `timestamp_of_completion` / `timestamp_of_sysex`: split points in the example -/
 example : exItems = exItems.take 1 ++ (Item.chan 0x90 true [([.tick 2], 0x3E), ([], 0)]) :: exItems.drop 2 := by decide
 example : exItems = exItems.take 3 ++ (Item.sysex [([], 1), ([.tick 1], 2), ([.byte 0xFA], 3)] [.tick 4]) :: exItems.drop 4 := by decide
